@@ -199,10 +199,15 @@ func panicOutcome(stage, msg, stack string) Outcome {
 	return Outcome{Kind: "panic", Message: msg, Stack: maskAddrs(stack), Sig: mksig("panic", stage, zeno, lib, msg)}
 }
 
-var addrs = regexp.MustCompile(`0x[0-9a-f]{5,}\??`)
+var (
+	addrs = regexp.MustCompile(`0x[0-9a-f]{5,}\??`)
+	fargs = regexp.MustCompile(`(?m)^(\S.*)\(.*\)$`)
+)
 
-// maskAddrs makes a stack dump reproducible (heap addresses differ from run to run)
-func maskAddrs(s string) string { return addrs.ReplaceAllString(s, "0x_") }
+// maskAddrs makes a stack dump reproducible: heap addresses and argument words differ from run to run
+func maskAddrs(s string) string {
+	return addrs.ReplaceAllString(fargs.ReplaceAllString(s, "$1(...)"), "0x_")
+}
 
 func mksig(kind, stage, zeno, lib, msg string) string {
 	if zeno == "" {
